@@ -68,9 +68,10 @@ fn gen_op(cx: &mut Cx, k: u64, h: &Arc<Honest>) -> Op {
         }
         4 => {
             // Sign
-            let l = match cx.ch.weighted("sign_L", &[8, 1, if big { 1 } else { 0 }]) { 0 => cx.ch.choose("sign_l", 8) as usize, 1 => pick_len(cx, "sign_lb", &[255, 256, 257]), _ => 1000 };
-            let msgs: Vec<Bytes> = (0..l).map(|i| bytes_for(seed, b"c10-sm", k * 10000 + i as u64, 1 + i % 17)).collect();
-            let header: Opt = match cx.ch.choose("sign_hdr", 6) { 0 => None, 1 => Some(vec![]), 2 => Some(bytes_for(seed, b"c10-h", k, 16)), 3 => Some(bytes_for(seed, b"c10-h", k, 255)), 4 => Some(bytes_for(seed, b"c10-h", k, 256)), _ => Some(bytes_for(seed, b"c10-h", k, if big { 65536 } else { 300 })) };
+            let l = match cx.ch.weighted("sign_L", &[8, 1, if big { 1 } else { 0 }]) { 0 => cx.ch.choose("sign_l", 8) as usize, 1 => pick_len(cx, "sign_lb", &[255, 256, 257, 128, 129, 64, 65, 32, 33, 258]), _ => 1000 };
+            let long_msg = if l > 0 && cx.ch.chance("sign_long_message", 1, 5) { Some((cx.ch.choose("sign_long_at", 2) as usize * (l - 1), pick_len(cx, "sign_long_len", &[1024, 4096, 4097, 10000]))) } else { None };
+            let msgs: Vec<Bytes> = (0..l).map(|i| bytes_for(seed, b"c10-sm", k * 10000 + i as u64, match long_msg { Some((at, n)) if at == i => n, _ => 1 + i % 17 })).collect();
+            let header: Opt = match cx.ch.choose("sign_hdr", 6) { 0 => None, 1 => Some(vec![]), 2 => Some(bytes_for(seed, b"c10-h", k, 16)), 3 => Some(bytes_for(seed, b"c10-h", k, 255)), 4 => Some(bytes_for(seed, b"c10-h", k, 256)), _ => Some(bytes_for(seed, b"c10-h", k, if big && cx.ch.chance("sign_hdr_64k", 1, 3) { 65536 } else { pick_len(cx, "sign_hdr_len", &[300, 4096, 4097, 6000, 1023, 1024, 1025]) })) };
             let ikm = bytes_for(seed, b"c10-sk", k, 32);
             let (m1, h1, i1) = (msgs.clone(), header.clone(), ikm.clone());
             Op { label: format!("sign({},L={l},header={:?})", s.name(), header.as_ref().map(|x| x.len())), compare_octets: true,
